@@ -50,6 +50,7 @@ def _mulcase(ctx, c, P, k, path, rep, order, ordP, side, enum, fresh_obj=None):
     y0 = ordP % 2 == 0
     case = {"kind": "mul", "c": list(c), "P": list(P), "k": k, "path": path, "rep": rep,
             "order": order, "side": side}
+    ctx.case_sample(case)
     ctx.ev()
     try:
         if fresh_obj is not None:
@@ -116,6 +117,7 @@ def _muladd_case(ctx, c, P, Q, a, b, kind_p, kind_q, order, ordP, ordQ, enum):
     y0 = ordP % 2 == 0 or (Q is not None and ordQ % 2 == 0)
     case = {"kind": "muladd", "c": list(c), "P": list(P), "Q": Q and list(Q), "a": a, "b": b,
             "kp": kind_p, "kq": kind_q, "order": order}
+    ctx.case_sample(case)
     ctx.ev()
     try:
         A = _mk_operand(cf, c, P, kind_p, order)
